@@ -134,6 +134,19 @@ def action_grammars():
         NT("ZZ", [AA(["n"], UA(45))], inline=True, ty="u8"),
     ], tags=["two different inlined nonterminals in one alternative", "inline order vs evaluation order"])))
 
+    # --- an inlined nonterminal that itself mentions two different inlined nonterminals, used twice.
+    # Names are chosen so that the current inlining order (dependencies first, then by name) happens to evaluate
+    # left to right (see the known finding on act_inline2): any change of the order shows.
+    gs.append(finalize(Grammar("act_inline3", terms("n:u8 + - ( ) ;"), [
+        NT("S", [
+            AA(["(", N("p", Nt("HP")), N("q", Nt("HP")), ")"], UA(50, "p", "q")),
+            AA([";", N("p", Nt("HP"))], FA(51, "p")),
+        ], pub=True, ty="u8"),
+        NT("HP", [AA([N("l", Nt("IZ")), N("r", Nt("IB"))], FA(52, "l", "r"))], inline=True, ty="u8"),
+        NT("IZ", [AA(["+", N("x", Tm("n"))], FA(53, "x"))], inline=True, ty="u8"),
+        NT("IB", [AA(["-", N("y", Tm("n"))], FA(54, "y"))], inline=True, ty="u8"),
+    ], tags=["inlined nonterminal mentioning two different inlined nonterminals", "inline dependency order"])))
+
     # --- fallible non-inlined, start reduction
     gs.append(finalize(Grammar("act_fallible", terms("n:u8 + ;"), [
         NT("S", [AA([N("a", Nt("X")), ";"], FA(30, "a")), AA([";"], FA(31))], pub=True, ty="u8"),
